@@ -26,6 +26,13 @@
 (* persisted shows in the store; the reply of a waited-for task is read from the CURRENT future of   *)
 (* the terminated process.  Classes Chain and Late exist to make both visible.                       *)
 (*                                                                                                 *)
+(* A process also owns its PARSED INPUTS (Process.inputs: what the constructor was given, completed   *)
+(* by the defaults of the ports), a saved member like the outputs and the context: the user code     *)
+(* reads its arguments there, on a fresh instance and on one recreated from a checkpoint alike.  The   *)
+(* mapping is a VALUE in its own right, whatever it contains: a class whose only port is optional     *)
+(* and has no default (class Opt), constructed without arguments, has the EMPTY mapping as its        *)
+(* parsed inputs - not "no inputs" - and a checkpoint of it carries exactly that.                      *)
+(*                                                                                                 *)
 (* Outside this module: the no_reply flag of the controllers, malformed task bodies (no task key),   *)
 (* pause / kill of launched processes (C04, C05), the exception class of a missing checkpoint and    *)
 (* shared bundles of the in-memory persister (C14), the loader named inside a bundle (C19).          *)
@@ -45,7 +52,7 @@ CONSTANTS
   Configs,    \* configurations: [hasP : BOOLEAN, kind : {"mem","pickle","none"}, loader : {"default","custom"},
               \*                  ctx : BOOLEAN (the launcher is constructed with a caller-supplied load_context),
               \*                  arg : {"none","pos","kw","bad"}]
-  Classes,    \* process classes: subset of {"Fin", "Exc", "Wait", "Late", "Chain"}
+  Classes,    \* process classes: subset of {"Fin", "Exc", "Wait", "Late", "Chain", "Opt"}
   Fixes,      \* repairs contained in the implementation under test
   Known       \* deviation identifiers of listed known findings (excused)
 
@@ -67,14 +74,29 @@ Tags == {"None", "t"}                       \* "None" is the absent tag
 \* Chain: a WorkChain with the outline (gather, report) that keeps its working data in self.ctx: gather() appends an item to
 \*        the list ctx.items (creating the list only if the checkpoint it started from left none), report() emits v and
 \*        n = len(ctx.items)                              -> FINISHED
+\* Opt  : the port v is optional and has NO default (the other classes declare it with the default 0): run() emits
+\*        v = self.inputs.get('v', 1) and g = ('v' in self.inputs), and returns      -> FINISHED, the reply is the outputs
+\* the constructor argument: inputs = {'v': 7} given positionally / by keyword, absent or invalid.  The PARSED inputs of the
+\* instance (Process.inputs; a mapping, here the sequence of its items): what was given, completed by the port defaults
+\*   Process.__init__ / on_create: self._parsed_inputs = self.spec().inputs.pre_process(raw inputs or {})   (never None)
+\* every class but Opt declares  spec.input('v', valid_type=int, default=0), Opt  spec.input('v', valid_type=int, required=False):
+\* an Opt constructed without arguments has the empty mapping
+ParsedInputs(c, arg) == IF arg \in {"pos", "kw"} THEN << <<"v", "7">> >>
+                        ELSE IF c = "Opt" THEN <<>> ELSE << <<"v", "0">> >>
+\* what the user code reads there:  'v' in self.inputs;  self.inputs.v  (classes with the default: always present) resp.
+\* self.inputs.get('v', 1)  (Opt)
+Has(ins, key) == \E j \in 1..Len(ins) : ins[j][1] = key
+Given(ins)    == IF Has(ins, "v") THEN "True" ELSE "False"
+InVal(ins)    == IF Has(ins, "v") THEN ins[CHOOSE j \in 1..Len(ins) : ins[j][1] = "v"][2] ELSE "1"
 Pt(st, outs, ctx, err) == [st |-> st, outs |-> outs, ctx |-> ctx, err |-> err]
-Traj(c, v) ==
+Traj(c, ins) == LET v == InVal(ins) IN
   CASE c = "Fin"   -> << Pt("CREATED", <<>>, <<>>, "-"), Pt("FINISHED", << <<"v", v>>, <<"s", "1">> >>, <<>>, "-") >>
     [] c = "Exc"   -> << Pt("CREATED", <<>>, <<>>, "-"), Pt("EXCEPTED", << <<"v", v>> >>, <<>>, "Boom") >>
     [] c = "Wait"  -> << Pt("CREATED", <<>>, <<>>, "-"), Pt("WAITING", << <<"v", v>> >>, <<>>, "-"),
                          Pt("FINISHED", << <<"v", v>>, <<"s", "2">> >>, <<>>, "-") >>
     [] c = "Late"  -> << Pt("CREATED", <<>>, <<>>, "-"), Pt("EXCEPTED", << <<"v", v>>, <<"s", "1">> >>, <<>>, "StoreFail") >>
     [] c = "Chain" -> << Pt("CREATED", <<>>, <<>>, "-"), Pt("FINISHED", << <<"v", v>>, <<"n", "1">> >>, <<"item">>, "-") >>
+    [] c = "Opt"   -> << Pt("CREATED", <<>>, <<>>, "-"), Pt("FINISHED", << <<"v", v>>, <<"g", Given(ins)>> >>, <<>>, "-") >>
 \* the step functions executed along each edge of the trajectory
 EdgeSteps(c) == CASE c = "Wait"  -> << <<"run">>, <<"after">> >>
                   [] c = "Chain" -> << <<"gather", "report">> >>
@@ -83,8 +105,6 @@ Terminal(st) == st \in {"FINISHED", "EXCEPTED"}
 \* the error a class ends with, if it ends with one
 ErrOf(c) == IF c = "Late" THEN "StoreFail" ELSE "Boom"
 ProcessErrors == {"Boom", "StoreFail"}
-\* the constructor argument: inputs = {'v': 7} given positionally / by keyword, absent (default 0) or invalid
-InputOf(arg) == IF arg \in {"pos", "kw"} THEN "7" ELSE "0"
 
 (* ----------------------------------------------------------------------------------------------- *)
 (* replies, snapshots, instances                                                                    *)
@@ -95,13 +115,14 @@ OutReply(o)    == [NoReply EXCEPT !.kind = "outputs", !.outs = o]
 ErrReply(e)    == [NoReply EXCEPT !.kind = "error", !.err = e]
 RejectedReply  == [NoReply EXCEPT !.kind = "rejected", !.err = "TaskRejected"]
 
-NoSnap == [cls |-> "-", name |-> "-", st |-> "-", v |-> "-", outs |-> <<>>, ctx |-> <<>>, err |-> "-"]
+NoSnap == [cls |-> "-", name |-> "-", st |-> "-", ins |-> <<>>, outs |-> <<>>, ctx |-> <<>>, err |-> "-"]
 \* what save_checkpoint stores for a process: class (under the name the persister's save context gives it), state, members
-\* (outputs, the context of a ContextMixin, the exception of the EXCEPTED state).  A checkpoint is a VALUE:
+\* (the parsed inputs - empty or not -, outputs, the context of a ContextMixin, the exception of the EXCEPTED state).  A checkpoint
+\* is a VALUE:
 \*   InMemoryPersister.save_checkpoint: Bundle(process, self._save_context, dereference=True)   (members are copied)
 \*   PicklePersister.save_checkpoint  : pickle.dump(Bundle(process), file)                       (serialised at once)
 \* whatever the process does afterwards, the stored snapshot is what the process was when it was saved
-SnapOf(p, scheme) == [cls |-> p.cls, name |-> scheme, st |-> p.st, v |-> p.v, outs |-> p.outs, ctx |-> p.ctx, err |-> p.err]
+SnapOf(p, scheme) == [cls |-> p.cls, name |-> scheme, st |-> p.st, ins |-> p.ins, outs |-> p.outs, ctx |-> p.ctx, err |-> p.err]
 
 \* proc.future(): the CURRENT future object of the process (the last one it created)
 Future(p) == p.futs[Len(p.futs)]
@@ -144,14 +165,15 @@ LoadObject(s, k, loader, scheme, c) == [s EXCEPT !.log = Append(@, [task |-> k, 
 \* proc_class(*init_args, **init_kwargs): a fresh pid, state CREATED, nothing has run
 Construct(s, k, c) ==
   [s EXCEPT !.npid = @ + 1,
-            !.procs = Append(@, [pid |-> s.npid + 1, cls |-> c, v |-> InputOf(s.cfg.arg), st |-> "CREATED", outs |-> <<>>,
+            !.procs = Append(@, [pid |-> s.npid + 1, cls |-> c, ins |-> ParsedInputs(c, s.cfg.arg), st |-> "CREATED", outs |-> <<>>,
                                  ctx |-> <<>>, err |-> "-", futs |-> <<NoReply>>,
                                  steps |-> <<>>, origin |-> "new", from |-> NoSnap, by |-> k, mode |-> "none", started |-> FALSE])]
 
-\* saved_state.unbundle(load_context): an instance with the members of the snapshot; the process future is a saved member
+\* saved_state.unbundle(load_context): an instance with the members of the snapshot (Process.load_instance_state: the parsed
+\* inputs are those of the snapshot, the empty mapping included); the process future is a saved member
 \* too (SavableFuture): the instance recreated from a terminated snapshot carries its outcome
 Recreate(s, k, pid, snap) ==
-  [s EXCEPT !.procs = Append(@, [pid |-> pid, cls |-> snap.cls, v |-> snap.v, st |-> snap.st, outs |-> snap.outs,
+  [s EXCEPT !.procs = Append(@, [pid |-> pid, cls |-> snap.cls, ins |-> snap.ins, st |-> snap.st, outs |-> snap.outs,
                                  ctx |-> snap.ctx, err |-> snap.err,
                                  futs |-> << IF snap.st = "FINISHED" THEN OutReply(snap.outs)
                                              ELSE IF snap.st = "EXCEPTED" THEN ErrReply(snap.err) ELSE NoReply >>,
@@ -173,14 +195,16 @@ EnterExcepted(p, e) == LET q == IF Future(p).kind # "pending" THEN [p EXCEPT !.f
 EnterWaiting(p)  == [p EXCEPT !.st = "WAITING"]
 \* the stretch that starts in CREATED
 Run(p) ==
-  CASE p.cls = "Fin"   -> EnterFinished(Emit(Emit(Mark(p, "run"), "v", p.v), "s", "1"))
-    [] p.cls = "Exc"   -> EnterExcepted(Emit(Mark(p, "run"), "v", p.v), "Boom")
-    [] p.cls = "Wait"  -> EnterWaiting(Emit(Mark(p, "run"), "v", p.v))
+  CASE p.cls = "Fin"   -> EnterFinished(Emit(Emit(Mark(p, "run"), "v", InVal(p.ins)), "s", "1"))
+    [] p.cls = "Exc"   -> EnterExcepted(Emit(Mark(p, "run"), "v", InVal(p.ins)), "Boom")
+    [] p.cls = "Wait"  -> EnterWaiting(Emit(Mark(p, "run"), "v", InVal(p.ins)))
     \* Late: FINISHED is entered (on_finish resolves the future), on_finished raises: transition_failed -> EXCEPTED
-    [] p.cls = "Late"  -> EnterExcepted(EnterFinished(Emit(Emit(Mark(p, "run"), "v", p.v), "s", "1")), "StoreFail")
+    [] p.cls = "Late"  -> EnterExcepted(EnterFinished(Emit(Emit(Mark(p, "run"), "v", InVal(p.ins)), "s", "1")), "StoreFail")
     \* Chain: self.ctx.setdefault('items', []).append('item'); then self.out('n', len(self.ctx.items))
+    \* Opt: self.out('v', self.inputs.get('v', 1)); self.out('g', 'v' in self.inputs)
+    [] p.cls = "Opt"   -> EnterFinished(Emit(Emit(Mark(p, "run"), "v", InVal(p.ins)), "g", Given(p.ins)))
     [] p.cls = "Chain" -> LET g == [Mark(p, "gather") EXCEPT !.ctx = Append(@, "item")] IN
-                          EnterFinished(Emit(Emit(Mark(g, "report"), "v", p.v), "n", Str(Len(g.ctx))))
+                          EnterFinished(Emit(Emit(Mark(g, "report"), "v", InVal(p.ins)), "n", Str(Len(g.ctx))))
 \* the continuation of the Wait command (class Wait)
 After(p) == EnterFinished(Emit(Mark(p, "after"), "s", "2"))
 
@@ -359,7 +383,7 @@ MustReject(t, cfg) == \/ t.type \notin {"create", "launch", "continue"}
                       \/ t.type = "continue" /\ ~cfg.hasP
 Constructible(cfg) == cfg.arg # "bad"
 With(st, key, snap) == [x \in DOMAIN st \cup {key} |-> IF x = key THEN snap ELSE st[x]]
-CreatedSnap(c, cfg) == [NoSnap EXCEPT !.cls = c, !.name = PersisterScheme(cfg), !.st = "CREATED", !.v = InputOf(cfg.arg)]
+CreatedSnap(c, cfg) == [NoSnap EXCEPT !.cls = c, !.name = PersisterScheme(cfg), !.st = "CREATED", !.ins = ParsedInputs(c, cfg.arg)]
 
 \* RejectOK: rejected exactly when the task cannot be honoured, and then nothing is constructed, persisted, resolved or run
 RejectOK == [][Sent /\ Asserted(S') =>
@@ -395,7 +419,7 @@ ContinueOK == [][Sent /\ Asserted(S') /\ NewT.type = "continue" /\ ~MustReject(N
     /\ IF <<NewT.pid, NewT.tag>> \in DOMAIN S.store
        THEN LET snap == S.store[<<NewT.pid, NewT.tag>>] IN
             /\ OneNew
-            /\ NewP.origin = "loaded" /\ NewP.from = snap /\ NewP.pid = NewT.pid /\ NewP.cls = snap.cls /\ NewP.v = snap.v
+            /\ NewP.origin = "loaded" /\ NewP.from = snap /\ NewP.pid = NewT.pid /\ NewP.cls = snap.cls /\ NewP.ins = snap.ins
             /\ NewP.mode # "none"
        ELSE S'.procs = S.procs /\ NewReply = ErrReply("NoCheckpoint")]_vars
 
@@ -404,12 +428,19 @@ ContinueOK == [][Sent /\ Asserted(S') /\ NewT.type = "continue" /\ ~MustReject(N
 RECURSIVE Cat(_, _, _)
 Cat(ss, a, b) == IF a > b THEN <<>> ELSE ss[a] \o Cat(ss, a + 1, b)
 OnTrajectory(p) ==
-  LET tr == Traj(p.cls, p.v)
+  LET tr == Traj(p.cls, p.ins)
       start == IF p.origin = "new" THEN tr[1] ELSE Pt(p.from.st, p.from.outs, p.from.ctx, p.from.err)
   IN \E a \in 1..Len(tr), b \in 1..Len(tr) :
         /\ a <= b /\ tr[a] = start /\ tr[b] = Pt(p.st, p.outs, p.ctx, p.err)
         /\ p.steps = Cat(EdgeSteps(p.cls), a, b - 1)
 StartedFromSnapshot == Asserted(S) => \A i \in 1..Len(S.procs) : OnTrajectory(S.procs[i])
+
+\* InputsKept: every instance - constructed by a create / launch task or recreated by a continue task from whatever checkpoint -
+\* and every checkpoint carries the parsed inputs of the construction (all constructions of a history use the same arguments):
+\* what the user code reads in self.inputs is the same mapping before and after persisting, the empty one included
+InputsKept == Asserted(S) =>
+    /\ \A i \in 1..Len(S.procs) : S.procs[i].ins = ParsedInputs(S.procs[i].cls, S.cfg.arg)
+    /\ \A key \in DOMAIN S.store : S.store[key].ins = ParsedInputs(S.store[key].cls, S.cfg.arg)
 
 \* launched and continued processes reach termination: none is left behind unstarted without a pending turn of the loop, and
 \* the only thing a live one can be waiting for is the environment's resume
